@@ -92,6 +92,11 @@ CLAIMED["C11"] = ("exploration",
    "Windows between two adjacent instructions of the tracer are hit only statistically by the sweep; pinned instants cover what callbacks and hook points can hold open. The 10 s bound is a correctness signal only together with its cause (program alive and nobody killing it).",
    "property-based testing (rapid) over harness-owned cancellation schedules", "§3 C11")
 
+CLAIMED["C16"] = ("fault_enumeration",
+   "A helper controller process performs an operation (container idle / Execve / Open loop / Reset loop, a ptrace run, a namespace-runner launch) with a program that forks a signal-ignoring tree; the crash-point list (each named host point of Execve via the tag-verif hooks, inside SyncFunc, inside the 1st/4th Handler callback, while the program runs, idle, before Open/Reset) is enumerated completely and crossed with the program shapes, plus random delays of 0..20 ms. The harness SIGKILLs the controller at the point and requires that within 5 s the container init, every process carrying the run's tag and every other descendant of the controller (recorded with start times just before the kill) is gone.",
+   "A *running* namespace-runner program is outside the statement (it names the container controller and the tracer); only the launch hand-shake of the namespace runner is covered. Zombies re-parented to the VM's init do not count as alive.",
+   "crash-point enumeration + property-based testing (rapid) with a process-table oracle", "§3 C16")
+
 NOT_YET = {}
 
 def main():
